@@ -101,3 +101,15 @@ func CollectionToTags(c b6.UntypedCollection) (b6.Tags, error) {
 		return nil, fmt.Errorf("expected tag values, or string keys and values, found %T and %T", i.Key(), i.Value())
 	}
 }
+
+// Hashable returns true if v can be used as the key of a map. Values
+// from collections are arbitrary: a collection, for example, can't be.
+func Hashable(v interface{}) (ok bool) {
+	defer func() {
+		if recover() != nil {
+			ok = false
+		}
+	}()
+	_ = map[interface{}]struct{}{v: {}}
+	return true
+}
